@@ -545,6 +545,12 @@ class CallMixin:
         args = [self.eval(a, st) for a in node.args]
         k = self.coerce(args[0], recv.ty.k, node)
         default = args[1] if len(args) > 1 else NONE
+        if default.ty != TNone and not isinstance(recv.ty.v, TOpt):
+            try:
+                dv = self.coerce(default, recv.ty.v, node, "default of dict.get")
+                return Val(recv.ty.v, z3.If(z3.Select(d_dom(recv.t), k.t), z3.Select(d_val(recv.t), k.t), dv.t))
+            except Unsupported:
+                pass
         oty = recv.ty.v if isinstance(recv.ty.v, TOpt) else TOpt(recv.ty.v)
         hit = self.coerce(Val(recv.ty.v, z3.Select(d_val(recv.t), k.t)), oty, node)
         dflt = self.coerce(default, oty, node)
